@@ -438,6 +438,10 @@ def decode_p1_readout_content(
     content: bytes,
 ) -> dict[str, str | int | float | datetime]:
     """Decode P1 readout content into dictionary."""
+    if any(octet < 0x20 and octet not in (0x0A, 0x0D) for octet in content):
+        # A data block is printable characters and line ends. Binary data is not a readout, e.g. a DLMS
+        # list whose octets all happen to be below 0x80 (the Kaifa list 02 01 06 00 0a 28 29).
+        raise ValueError("Content is not readout text.")
     parsed = parse_p1_readout_content(content)
     if not parsed:
         raise ValueError("Content cotains no readout data.")
